@@ -65,10 +65,61 @@ TYNAME = {"BOOLEAN": "b", "SMALLINT": "i16", "INT": "i32", "BIGINT": "i64", "STR
 
 
 def parse_ins(req):
+    m = re.match(r"\(selcast (\w+) \(src .*?\) (\w+) \(rows (.*)\)\)$", req)
+    if m:
+        return m.group(1), [(m.group(2), "null")]
     m = re.match(r"\(ins\w* (\w+) (?:\(src .*?\) )?\(decls (.*?)\) (?:\(cols [^)]*\) )?\(rows (.*)\)\)$", req)
     eng, decls, rows = m.group(1), m.group(2), m.group(3)
     decls = re.findall(r"\((\w+) (\w+)\)", decls)
     return eng, decls
+
+
+SQLTY = {"BOOLEAN": "boolean", "SMALLINT": "smallint", "INT": "int", "BIGINT": "bigint", "STRING": "varchar"}
+
+
+def render_sql(req):
+    """The SQL statements the harness runs for an INSERT scenario (for the replay file)."""
+    def val(v):
+        if v == "null":
+            return "NULL"
+        tag, rest = v.split(":", 1)
+        if tag == "s":
+            return "'%s'" % bytes.fromhex(rest).decode()
+        if tag == "d":
+            d = int(rest)
+            return "%s%d.%d" % ("-" if d < 0 else "", abs(d) // 10, abs(d) % 10)
+        return rest
+    def cols(txt):
+        out = []
+        for k, (t, n) in enumerate(re.findall(r"\((\w+) (\w+)\)", txt)):
+            out.append("c%d %s%s" % (k, SQLTY[t], {"notnull": " not null", "pk": " primary key"}.get(n, "")))
+        return ", ".join(out)
+    try:
+        kind = req.split(" ")[0][1:]
+        rows = [r.split(" ") if r else [] for r in re.findall(r"\(([^()]*)\)", req[req.index("(rows ") + 6:])]
+        stmts = []
+        src = re.search(r"\(src (.*?)\) (?:\(decls|\w+ \(rows)", req)
+        decls = re.search(r"\(decls (.*?)\) \((?:rows|cols)", req)
+        if decls:
+            stmts.append("create table t(%s)" % cols(decls.group(1)))
+        target = "t"
+        if src:
+            stmts.append("create table s(%s)" % cols(src.group(1)))
+            target = "s"
+        c = re.search(r"\(cols ([^)]*)\)", req)
+        if c:
+            target = "t(%s)" % ", ".join("c" + x for x in c.group(1).split())
+        for r in rows:
+            stmts.append("insert into %s values (%s)" % (target, ", ".join(val(v) for v in r)))
+        if kind == "inssel":
+            stmts.append("insert into t select * from s")
+        if kind == "selcast":
+            stmts.append("select cast(c0 as %s) from s" % SQLTY[re.search(r"\) (\w+) \(rows", req).group(1)])
+        else:
+            stmts.append("select * from t")
+        return ("-- engine: %s\n" % req.split(" ")[1]) + ";\n".join(stmts) + ";"
+    except Exception as ex:  # the replay keeps the request anyway
+        return "-- could not render: %s" % ex
 
 
 def ins_oracle(req, impl_line):
@@ -162,16 +213,16 @@ def run(ck):
         if impl_rows is None or impl_rows != model_rows:
             st["model_vs_impl"]["disagree"] += 1
             prop_fails = bool(problems) or impl_rows != spec_rows
-            ck.report(("corr+prop:ins:" if prop_fails else "corr:ins:") + eng,
+            ck.report(("corr+prop:%s:" % kind if prop_fails else "corr:%s:" % kind) + eng,
                       "INSERT/SELECT model and implementation disagree on %s: impl=%s model=%s spec=%s oracle=%s" % (q[:200], i[:160], model_rows[:160], spec_rows[:160], problems),
-                      replay={"request": q, "impl": i, "model": m, "oracle": problems}, found_input=prop_fails)
+                      replay={"request": q, "sql": render_sql(q), "impl": i, "model": m, "oracle": problems}, found_input=prop_fails)
             last_mem = None
             continue
         # model-free oracle on the implementation
         st["impl_vs_oracle"]["compared"] += 1
         engines_differ = False
         if eng == "mem":
-            last_mem = (re.sub(r"^\((ins\w*) mem", r"(\1 disk", q), impl_rows)
+            last_mem = (re.sub(r"^\((ins\w*|selcast) mem", r"(\1 disk", q), impl_rows)
         elif last_mem and last_mem[0] == q:
             engines_differ = last_mem[1] != impl_rows
         if engines_differ:
@@ -187,11 +238,11 @@ def run(ck):
             if hard or not tags:
                 ck.report("prop:ins:%s" % (hard[0].split(":")[0] if hard else "untagged"),
                           "implementation (= model) breaks the property with no modelled reason on %s: %s impl=%s spec=%s" % (q[:200], problems, i[:160], spec_rows[:160]),
-                          replay={"request": q, "impl": i, "model": m, "oracle": problems}, found_input=True)
+                          replay={"request": q, "sql": render_sql(q), "impl": i, "model": m, "oracle": problems}, found_input=True)
             else:
                 for t in tags:
                     ck.report(t, "%s: %s returns %s, the property demands %s (oracle: %s) on %s" % (t, eng, impl_rows[:120], spec_rows[:120], problems, q[:160]),
-                              replay={"request": q, "impl": i, "model": m, "oracle": problems}, found_input=True)
+                              replay={"request": q, "sql": render_sql(q), "impl": i, "model": m, "oracle": problems}, found_input=True)
     # SQL: static type of bound / optimised plan vs runtime array variants
     sqlf = os.path.join(ck.work, "sql.txt")
     vlib.sh([vlib.harness_bin("c16"), "gensql", str(nsql), sqlf])
